@@ -348,12 +348,17 @@ PROPS["C15"] = {
              "panics; and at the end: every End and Pop call has returned (stall detector: 12 s of real time for something that "
              "takes microseconds), every peer ever created is closed, no rendezvous started after the first End returned, Pops "
              "called after End returned nil. Non-trivial = an End issued while a Collect is in flight, after peers went stale, or "
-             "a repeated End. c15_rendezvous: real pion peer construction with generated ICE configurations and scripted broker "
-             "outcomes (see DESIGN)."),
+             "a repeated End. c15_rendezvous: real pion peer construction with generated ICE configurations (none, empty URL, "
+             "garbage, stun/turn/stuns forms) and scripted broker outcomes (transport error, empty, non-JSON, error JSON, answer of wrong JSON "
+             "type, type-confused, unparsable SDP, an offer instead of an answer; thorough: a real answer from a peer that never connects, "
+             "10 s): must return (nil, error), twice in a row, without panicking. c15_binary (thorough): the client binary as a managed "
+             "transport with generated -ice values and SOCKS ice=/max= arguments against a broker that refuses in five ways: alive after "
+             "2-24 s of failing attempts, no broker poll in the 23 s after the SOCKS connection closed, exit within 15 s of SIGTERM."),
     "assumptions": ["the schedule is owned through explicit gates in the scripted dialer, not through a clock (sync.Mutex waits freeze a synctest bubble and Peers holds a mutex across the rendezvous)",
                     "connectLoop's 10 s pacing is real time: only its first iteration is inside a case"],
     "units": [U("c15_peers", "inpkg", "client/lib", "^TestVerifC15Peers$", (400, 5000), timeout=(400, 3000), wedge_is_violation=True),
-              U("c15_rendezvous", "inpkg", "client/lib", "^TestVerifC15Rendezvous$", (12, 120), timeout=(400, 3000))],
+              U("c15_rendezvous", "inpkg", "client/lib", "^TestVerifC15Rendezvous$", (12, 120), timeout=(400, 3000)),
+              U("c15_binary", "ext", "c15bin", "^TestVerifC15Binary$", (0, 8), shards=(0, 8), timeout=(400, 1200), tiers=["thorough"])],
 }
 META["C15"] = {
     "level": "Sampled exploration of operation histories with a scripted dialer whose blocking points are chosen by the generator (so 'End while a rendezvous is in flight' is constructed, not raced), invariants after every step; generated failing rendezvous of every kind against real pion in real time.",
